@@ -405,24 +405,54 @@ Definition glue_stat (a o : list value) : option verdict :=
    paths as in the clock's previous round.  odd = lookups the daemon saw without the refresh flag or with
    another source than the local IA. *)
 Definition svc_clients : Z := 7.
-Fixpoint svc_prev (c : Z) (l : list (Z * (list dpath * list Z))) : option (list dpath * list Z) :=
+Record svc_prev_t := { sp_truth : list dpath; sp_hops : list Z; sp_cls : Z }.
+Fixpoint svc_prev (c : Z) (l : list (Z * svc_prev_t)) : option svc_prev_t :=
   match l with [] => None | (c', x) :: r => if c =? c' then Some x else svc_prev c r end.
-Definition svc_round_ok (truth : list dpath) (cls : Z) (hops : list Z) (maxrq : Z) (prev : option (list dpath * list Z)) : bool :=
+Fixpoint form_at (h : Z) (hops forms : list Z) : Z :=
+  match hops, forms with
+  | x :: hr, f :: fr => if x =? h then f else form_at h hr fr
+  | _, _ => -1
+  end.
+(* forms: per next hop the form of the first request it received (1 interleaved); recent: the clock's previous
+   round ended less than 2 s ago.  Sticky clause per path: a path that the clock's previous (successful, recent)
+   round probed and that is still offered is probed again, and its first request is an interleaved one - the
+   client that held it goes on with it, whatever happens to the other paths and wherever that client sits in the
+   clock's client list. *)
+Definition svc_round_ok (truth : list dpath) (cls : Z) (hops : list Z) (maxrq : Z) (forms : option (list Z)) (recent : bool)
+  (prev : option svc_prev_t) : bool :=
   let n := Z.of_nat (length truth) in
   forallb (fun h => zmem h (map fst truth)) hops && znodupb hops
   && (if n =? 0 then (cls =? 1) && Nat.eqb (length hops) 0
       else (cls =? 0) && (Z.of_nat (length hops) =? Z.min svc_clients n) && (maxrq <=? 3))
   && match prev with
-     | Some (t0, h0) => if dpaths_eqb t0 truth then zlist_eqb h0 hops else true
+     | Some pv =>
+         (if dpaths_eqb (sp_truth pv) truth then zlist_eqb (sp_hops pv) hops else true)
+         && match forms with
+            | Some fs =>
+                if recent && (sp_cls pv =? 0)
+                then forallb (fun h => if zmem h (map fst truth) then zmem h hops && (form_at h hops fs =? 1) else true) (sp_hops pv)
+                else true
+            | None => true
+            end
      | None => true
      end.
-Fixpoint svc_run (prev : list (Z * (list dpath * list Z))) (rins robs : list value) : bool :=
+Fixpoint svc_run (prev : list (Z * svc_prev_t)) (rins robs : list value) : bool :=
   match rins, robs with
   | [], [] => true
-  | VL [VZ c; VL tv] :: rins', VL [VZ cls; VL hv; VZ maxrq] :: robs' =>
+  | VL [VZ c; VL tv] :: rins', VL (VZ cls :: VL hv :: VZ maxrq :: more) :: robs' =>
       match parse_offered tv, getZs hv with
       | Some truth, Some hops =>
-          svc_round_ok truth cls hops maxrq (svc_prev c prev) && svc_run ((c, (truth, hops)) :: prev) rins' robs'
+          let '(forms, recent, wf) :=
+            match more with
+            | [] => (None, false, true)
+            | [VL fv; VZ rc] => match getZs fv with
+                                | Some fs => (Some fs, zb rc, Nat.eqb (length fs) (length hops))
+                                | None => (None, false, false)
+                                end
+            | _ => (None, false, false)
+            end in
+          wf && svc_round_ok truth cls hops maxrq forms recent (svc_prev c prev)
+          && svc_run ((c, {| sp_truth := truth; sp_hops := hops; sp_cls := cls |}) :: prev) rins' robs'
       | _, _ => false
       end
   | _, _ => false
